@@ -306,8 +306,75 @@ func withSpareCapacity(s vlib.PolicySpec) (*seccomp.Policy, sentinelCheck) {
 }
 
 // c13Workload is run both with and without the race detector.
+// c13CopiesOfAssembled: a history plus a schedule. A policy is compiled once; then value copies of it (taken afterwards, so
+// that they carry whatever the compilation left in the value) - identical ones, ones with another default action, ones
+// whose group list is another policy's - are compiled at the same time by goroutines of their own, each with its own
+// Policy value. Every result must be what a fresh, equal policy gives.
+func c13CopiesOfAssembled(run *vlib.Run, ts []*vlib.Target, specs []vlib.PolicySpec, rounds int) {
+	for base := 0; base+1 < len(specs); base += 5 {
+		s := specs[base]
+		t := targetByName(ts, s.Arch)
+		p0 := s.Policy()
+		if c := vlib.Compile(p0, t); !c.OK() {
+			continue
+		}
+		var buf bytes.Buffer
+		p0.Dump(&buf) // and dumped once, as a caller may before loading
+		const k = 8
+		var copies [k]*seccomp.Policy
+		var want [k]string
+		for j := 0; j < k; j++ {
+			cp := *p0 // a plain value copy
+			switch j % 4 {
+			case 1:
+				cp.DefaultAction = vlib.NamedActions[(base+j)%len(vlib.NamedActions)]
+			case 2:
+				// another policy's groups of the same architecture (fitting or not fitting what the first compilation sized)
+				for o := 1; o < len(specs); o++ {
+					if os := specs[(base+o*(j+1))%len(specs)]; os.Arch == s.Arch {
+						cp.Syscalls = os.Policy().Syscalls
+						break
+					}
+				}
+			case 3:
+				if n := len(cp.Syscalls); n > 1 {
+					cp.Syscalls = append([]seccomp.SyscallGroup(nil), cp.Syscalls[:n-1]...)
+				}
+			}
+			copies[j] = &cp
+			fresh := vlib.Compile(vlib.SpecOf(&cp, s.Arch).Policy(), t)
+			want[j] = progDigest(fresh.Ins, fresh.Err)
+		}
+		for round := 0; round < rounds; round++ {
+			var wg sync.WaitGroup
+			start := make(chan struct{})
+			var got [k]string
+			for j := 0; j < k; j++ {
+				wg.Add(1)
+				go func(j int) {
+					defer wg.Done()
+					<-start
+					c := vlib.Compile(copies[j], t)
+					got[j] = progDigest(c.Ins, c.Err)
+				}(j)
+			}
+			close(start)
+			wg.Wait()
+			run.Count("concurrent_compilations_of_copies_of_an_assembled_value", k)
+			for j := 0; j < k; j++ {
+				if got[j] != want[j] {
+					run.Violation("copy-of-assembled-value-compiles-differently", fmt.Sprintf("policy %d was compiled and dumped once; value copy %d of it (variant %d), compiled next to %d other copies in goroutines of their own, gives another program than a fresh equal policy (%s vs %s)", base, j, j%4, k-1, got[j], want[j]),
+						map[string]any{"check": "C13", "policy": vlib.SpecOf(copies[j], s.Arch), "base_policy": s})
+					return
+				}
+			}
+		}
+	}
+}
+
 func c13Workload(run *vlib.Run, ts []*vlib.Target, nPolicies, rounds int) {
 	specs := c13Policies(run.Seed, nPolicies, ts)
+	defer c13CopiesOfAssembled(run, ts, specs, 2+rounds)
 	// sequential golden run
 	golden := make([]string, len(specs))
 	goldenDump := make([]string, len(specs))
